@@ -50,11 +50,41 @@ def _live():
     return len(seen)
 
 
+def _instances():
+    """live INSTANCES by category (the class population grows on the current tree, instances do not)"""
+    from semantiva.pipeline.nodes.nodes import _PipelineNode
+    from semantiva.data_processors.data_processors import _BaseDataProcessor
+    from semantiva.context_processors.context_processors import ContextProcessor
+    from semantiva.execution.transport.base import Message
+    n = {"nodes": 0, "processors": 0, "messages": 0}
+    # instances held as class attributes of registered (generated) classes are part of the class-registry residue
+    # (finding F-C18-a: e.g. the generated context-processor node class stores its processor instance); they are
+    # accounted to the registry count, not to the instance population
+    held = set()
+    for v in _registry().values():
+        for c in v:
+            for a in vars(c).values():
+                held.add(id(a))
+    for o in gc.get_objects():
+        try:
+            if id(o) in held:
+                continue
+            if isinstance(o, _PipelineNode):
+                n["nodes"] += 1
+            elif isinstance(o, (_BaseDataProcessor, ContextProcessor)):
+                n["processors"] += 1
+            elif isinstance(o, Message):
+                n["messages"] += 1
+        except Exception:  # noqa - objects with odd __class__ behaviour
+            pass
+    return n
+
+
 def sample(transport=None, jobtransport=None):
     gc.collect()
     reg = _registry()
     out = {"reg": {k: len(v) for k, v in reg.items()}, "total": sum(len(v) for v in reg.values()),
-           "live": _live(), "gc": len(gc.get_objects())}
+           "live": _live(), "gc": len(gc.get_objects()), "inst": _instances()}
     if transport is not None:
         qs = getattr(transport, "_queues", None)
         if qs is not None:
@@ -425,7 +455,7 @@ def oracle(ck, case, r, reported):
               "configuration": [pg.node_impl_repr(n) for n in case["nodes"]],
               "registered_classes": {p: smp[p]["total"] for p in pts},
               "queue_messages": {p: smp[p].get("queue") for p in pts}, "job_channels": {p: smp[p].get("jobchannels") for p in pts},
-              "gc_objects": {p: smp[p]["gc"] for p in pts}}
+              "gc_objects": {p: smp[p]["gc"] for p in pts}, "live_instances": {p: smp[p].get("inst") for p in pts}}
     pairs = [(a, b) for a in pts for b in pts if b == 3 * a and a > 1]     # after warm-up: N >= 10 (quick) / 50 (thorough)
     found = []
     for a, b in pairs:
@@ -441,6 +471,14 @@ def oracle(ck, case, r, reported):
             found.append(("C18:transport-channel-growth:queue-worker",
                           "channel entries of the worker's job transport grow with the number of jobs although every message was consumed: "
                           "%d after job %d, %d after job %d" % (smp[a]["jobchannels"], a, smp[b]["jobchannels"], b)))
+        ia, ib = smp[a].get("inst"), smp[b].get("inst")
+        if ia and ib:
+            cats = ["nodes", "processors"] + (["messages"] if way in ("fresh", "worker") else [])
+            for cat in cats:
+                if ib[cat] > ia[cat]:
+                    found.append(("C18:live-instance-growth:%s:%s" % (cat, WAY_SIG[way]),
+                                  "live %s instances grow with the number of runs (%s): %d after run %d, %d after run %d"
+                                  % (cat, WAY_SIG[way], ia[cat], a, ib[cat], b)))
         stable = smp[b]["total"] == smp[a]["total"] and smp[b].get("queue") == smp[a].get("queue") and \
             smp[b].get("jobchannels") == smp[a].get("jobchannels")
         if stable and smp[b]["gc"] - smp[a]["gc"] > (b - a):        # more than one object per run with nothing modelled growing
